@@ -37,6 +37,9 @@ type Step struct {
 	Events  int    `json:"events,omitempty"`  // subscription: number of events
 	GapUS   int    `json:"gap_us,omitempty"`  // subscription: pause before each event
 	Fault   string `json:"fault,omitempty"`   // "", error, panic (resolver)
+	// Endless: the subscription's event source, after its events, stays open until its context is
+	// cancelled - only a stop, the end of the connection or a server-side cancellation ends it
+	Endless bool `json:"endless,omitempty"`
 	Payload string `json:"payload,omitempty"` // init payload / invalid frame text
 	DelayUS int    `json:"delay_us,omitempty"`
 }
@@ -111,6 +114,9 @@ func check(c Case) *vfrun.Failure {
 			n := st.Events
 			o := p.Overrides[a+"@events"]
 			o.Kind, o.Len = plan.Value, &n
+			if st.Endless {
+				o.Wait = "ctx"
+			}
 			p.Overrides[a+"@events"] = o
 			for i := 0; i < n; i++ {
 				p.Overrides[fmt.Sprintf("%s@%d", a, i)] = plan.Outcome{Kind: plan.Value, SleepUS: st.GapUS}
@@ -287,9 +293,11 @@ func check(c Case) *vfrun.Failure {
 		return false
 	}
 	connClosed := false
+	// an endless subscription ends only when it is stopped
+	endsByItself := func(id string) bool { return !started[id].Endless || stopped[id] }
 	allDone := func() bool {
 		for _, id := range startOrder {
-			if !terminal(id) {
+			if endsByItself(id) && !terminal(id) {
 				return false
 			}
 		}
@@ -311,7 +319,7 @@ waitLoop:
 	unterminated := []string{}
 	if !connClosed && !clientEnded {
 		for _, id := range startOrder {
-			if !terminal(id) {
+			if endsByItself(id) && !terminal(id) {
 				unterminated = append(unterminated, id)
 			}
 		}
@@ -469,6 +477,11 @@ waitLoop:
 	if len(perID) >= 2 {
 		vfrun.Label("several-operations")
 	}
+	for id := range stopped {
+		if started[id].Endless {
+			vfrun.Label("stopped-endless-subscription")
+		}
+	}
 	if overlap >= 2 || (len(stopped) > 0 && overlap >= 1) {
 		vfrun.NonTrivial(desc)
 		vfrun.Label("overlapping-or-stop-racing-emit")
@@ -547,6 +560,14 @@ func gen(t *rapid.T) Case {
 			st.Events = rapid.IntRange(0, 5).Draw(t, "events")
 			st.GapUS = rapid.SampledFrom([]int{0, 50, 500, 2000}).Draw(t, "gap")
 			st.Fault = rapid.SampledFrom([]string{"", "", "", "error", "panic"}).Draw(t, "fault")
+			if st.Op == "subscription" && st.Fault == "" {
+				st.Endless = rapid.IntRange(0, 2).Draw(t, "endless") == 0
+			}
+			if rapid.IntRange(0, 3).Draw(t, "stop-at-once") == 0 {
+				// the stop follows its start with no pause and no server frame in between
+				c.Steps = append(c.Steps, st)
+				st = Step{Kind: "stop", ID: st.ID}
+			}
 		case 8, 9, 10:
 			if len(ids) == 0 {
 				st.Kind, st.GapUS = "wait", 200
